@@ -218,7 +218,7 @@ def _starts_with_lits(body):
 
 
 def tab7(ctx):
-    r = RuleResult("TAB-7", "writers and readers of .rsca / .alias / .wsca agree on sigils; one JSON schema type in every direction", floor=12)
+    r = RuleResult("TAB-7", "writers and readers of .rsca / .alias / .wsca agree on sigils; one JSON schema type in every direction", floor=13)
     bn = ctx.bin
     # --- rsca
     w = ctx.fn(bn, "asca_bin::cli::util::to_rsca_format")
@@ -250,6 +250,24 @@ def tab7(ctx):
     r.inst("rsca: multi-line descriptions split on %r by the writer and re-joined with %r by the reader" % (wsplit, rpush), fn_loc(rd), "ok" if ok else "report")
     if not ok:
         r.report("TAB-7|rsca|description-lines", fn_loc(rd), rd.path, "description line separator: writer splits on %r, reader joins with %r" % (wsplit, rpush))
+    # every group is delimited: the reader starts a new group only at a `@` line (or after a description), so the writer must emit
+    # the `@` header for every group, unconditionally
+    par = hirq.parent_map(w.hir["body"])
+    gsig = [n for n in _lits(w, ("fmt", "str")) if n["lit"].lstrip(" \t").startswith("@")]
+    if not gsig:
+        raise AnchorMissing("to_rsca_format: no `@` header literal")
+    for n in gsig:
+        conds = []
+        x = par.get(id(n))
+        while x is not None:
+            if not x.get("exp") and (x.get("e") == "if" or (x.get("e") == "match" and x.get("src") in (None, "Normal"))):
+                conds.append(x.get("ln"))
+            x = par.get(id(x))
+        ok = not conds
+        r.inst("rsca: the group header `%s` is written for every group (not under a condition)" % n["lit"].strip(), fn_loc(w, n.get("ln")), "ok" if ok else "report")
+        if not ok:
+            r.report("TAB-7|rsca|header-conditional", fn_loc(w, n.get("ln")), w.path,
+                     "the `@` group header is written only under a condition (line %s): parse_rsca starts a group only at an `@` line, so a group written without it is merged into the previous one" % conds[-1])
     # --- alias
     w = ctx.fn(bn, "asca_bin::cli::util::to_alias")
     rd = ctx.fn(bn, "asca_bin::cli::parse::parse_alias")
